@@ -15,7 +15,7 @@ from vlib import *
 from pegrun import *
 
 SLICES_QUICK = [("core", 4, 3, 3), ("ws", 8, 2, 3), ("stack", 4, 3, 4), ("counted", 2, 3, 4), ("builtin", 4, 3, 3),
-                ("skip", 8, 3, 3), ("factor", 4, 1, 4), ("restore", 6, 1, 4), ("pushws", 1, 1, 4), ("wsov", 2, 3, 4), ("wsref", 4, 2, 3), ("wsmod", 2, 1, 4)]
+                ("skip", 8, 3, 3), ("factor", 4, 1, 4), ("restore", 6, 1, 4), ("pushws", 1, 1, 4), ("wsov", 2, 3, 4), ("wsref", 4, 2, 3), ("wsmod", 2, 1, 4), ("wspred", 1, 1, 4)]
 # the same slices read with the grammar-extras feature on (native one-or-more, PUSH_LITERAL, tags), plus the
 # slice that exists only there; replayed on a harness built with --features extras
 XSLICES_QUICK = [("xtag", 4, 3, 3), ("xcore", 2, 3, 3), ("xws", 4, 2, 3), ("xcounted", 2, 3, 4), ("xstack", 2, 3, 4),
@@ -23,7 +23,7 @@ XSLICES_QUICK = [("xtag", 4, 3, 3), ("xcore", 2, 3, 3), ("xws", 4, 2, 3), ("xcou
 XSLICES_THOROUGH = [("xtag", 12, 4, 4), ("xcore", 12, 4, 4), ("xws", 12, 3, 3), ("xcounted", 8, 4, 4), ("xstack", 12, 4, 4),
                     ("xrestore", 8, 1, 5), ("xpushws", 2, 1, 5), ("xfactor", 8, 1, 5)]
 SLICES_THOROUGH = [("core", 12, 4, 4), ("ws", 12, 3, 3), ("stack", 12, 4, 4), ("counted", 8, 4, 4), ("builtin", 12, 4, 3),
-                   ("skip", 12, 4, 4), ("factor", 8, 1, 5), ("restore", 8, 1, 5), ("pushws", 2, 1, 5), ("wsov", 4, 3, 4), ("wsref", 8, 3, 3), ("wsmod", 2, 1, 4)]
+                   ("skip", 12, 4, 4), ("factor", 8, 1, 5), ("restore", 8, 1, 5), ("pushws", 2, 1, 5), ("wsov", 4, 3, 4), ("wsref", 8, 3, 3), ("wsmod", 2, 1, 4), ("wspred", 1, 1, 4)]
 
 
 def classify(m):
